@@ -1,3 +1,165 @@
-import GixModel.Model.C52
+import GixModel.Lemmas.C52Raw
+/-
+C52 — Dates format and parse consistently.  PROPERTY THEOREMS ONLY.
+
+Model: `GixModel.C52` (gix-date's Time::format and parse with the jiff pieces they use), calendar:
+`GixModel.Civil`. jiff is external: its calendar, strftime/strptime and RFC 2822 parser are modelled and
+tied to the real crate by the correspondence harness; the theorems are about the model.
+-/
 namespace GixModel.Props.C52
+open GixModel GixModel.C52 GixModel.Civil
+
+/-! ### the calendar, for all of `Int` -/
+
+/-- `civil_roundtrip`, first half: EVERY day number (unbounded) is a valid proleptic Gregorian date
+and converts back to itself. -/
+theorem civil_roundtrip_days (z : Int) :
+    ValidDate (civilFromDays z).1 (civilFromDays z).2.1 (civilFromDays z).2.2 ∧
+      daysFromCivil (civilFromDays z).1 (civilFromDays z).2.1 (civilFromDays z).2.2 = z :=
+  days_civil_days z
+
+/-- `civil_roundtrip`, second half: EVERY valid date of ANY year comes back from its day number. -/
+theorem civil_roundtrip (y : Int) (m d : Nat) (hv : ValidDate y m d) : civilFromDays (daysFromCivil y m d) = (y, m, d) :=
+  civil_days_civil y m d hv
+
+example : ValidDate (-123456788) 2 29 ∧ ValidDate 2000 2 29 ∧ ¬ ValidDate 1900 2 29 := by decide
+example : daysFromCivil 1970 1 1 = 0 ∧ daysFromCivil 2000 3 1 = 11017 ∧ weekday 0 = 4 := by decide
+
+/-! ### today's format strings -/
+
+/-- Per-run obligation on the extracted format strings and cascade order: each is understood, each is
+well chained (`chainOk`: the parser stops where the formatter stopped), the four `strptime` formats
+carry all of date, time and offset. -/
+theorem extracted_ok :
+    (parseFormat Extracted.dateFmtShort = some [.Y, .lit 45, .m, .lit 45, .d]) ∧
+    ((parseFormat Extracted.dateFmtIso8601).map (fun i => chainOk i && complete i) = some true) ∧
+    ((parseFormat Extracted.dateFmtIso8601Strict).map (fun i => chainOk i && complete i) = some true) ∧
+    ((parseFormat Extracted.dateFmtGitoxide).map (fun i => chainOk i && complete i) = some true) ∧
+    ((parseFormat Extracted.dateFmtDefault).map (fun i => chainOk i && complete i) = some true) ∧
+    ((parseFormat Extracted.dateFmtRfc2822).map (fun i => chainOk i && complete i) = some true) ∧
+    ((parseFormat Extracted.dateFmtGitRfc2822).map (fun i => chainOk i && complete i) = some true) ∧
+    Extracted.dateParseOrder = [0, 1, 2, 3, 4, 5] := by
+  decide
+
+/-- Generic `format_parse`: for ANY format string made of the directives gix-date uses that is well
+chained and complete, and for EVERY time in jiff's range whose sign field agrees with its offset,
+`format` does not panic and `strptime_relaxed` of the text gives back the same seconds, offset and
+sign. (The offset may have a seconds part; the weekday is printed and ignored on reading.) -/
+theorem format_parse_generic (fmt : Bytes) (items : List Item) (hpf : parseFormat fmt = some items)
+    (hok : (chainOk items && complete items) = true) (t : Time) (hr : InRange t) (hs : SignOk t) :
+    ∃ text, format (.custom fmt) t = .ok text ∧ parseZoned fmt text = some t := by
+  simp only [Bool.and_eq_true] at hok
+  exact format_parse_zoned fmt items hpf hok.1 hok.2 t hr hs
+
+theorem fmt_cases {fmt : Bytes} (h : (parseFormat fmt).map (fun i => chainOk i && complete i) = some true) :
+    ∃ items, parseFormat fmt = some items ∧ (chainOk items && complete items) = true := by
+  cases hp : parseFormat fmt with
+  | none => rw [hp] at h; cases h
+  | some items => rw [hp] at h; exact ⟨items, rfl, by simpa using h⟩
+
+/-- `format_parse` for the code as it is today: ISO8601, ISO8601_STRICT, GITOXIDE and DEFAULT, each read by
+its own branch of `parse`. -/
+theorem format_parse (t : Time) (hr : InRange t) (hs : SignOk t) :
+    (∃ text, format (.custom Extracted.dateFmtIso8601) t = .ok text ∧ parseZoned Extracted.dateFmtIso8601 text = some t) ∧
+    (∃ text, format (.custom Extracted.dateFmtIso8601Strict) t = .ok text ∧ parseZoned Extracted.dateFmtIso8601Strict text = some t) ∧
+    (∃ text, format (.custom Extracted.dateFmtGitoxide) t = .ok text ∧ parseZoned Extracted.dateFmtGitoxide text = some t) ∧
+    (∃ text, format (.custom Extracted.dateFmtDefault) t = .ok text ∧ parseZoned Extracted.dateFmtDefault text = some t) := by
+  obtain ⟨_, h2, h3, h4, h5, _⟩ := extracted_ok
+  obtain ⟨i2, p2, o2⟩ := fmt_cases h2
+  obtain ⟨i3, p3, o3⟩ := fmt_cases h3
+  obtain ⟨i4, p4, o4⟩ := fmt_cases h4
+  obtain ⟨i5, p5, o5⟩ := fmt_cases h5
+  exact ⟨format_parse_generic _ i2 p2 o2 t hr hs, format_parse_generic _ i3 p3 o3 t hr hs,
+    format_parse_generic _ i4 p4 o4 t hr hs, format_parse_generic _ i5 p5 o5 t hr hs⟩
+
+-- non-vacuity: both ends of jiff's range, an offset with seconds, a negative year
+example : InRange ⟨tsMin, -offMax, true⟩ ∧ SignOk ⟨tsMin, -offMax, true⟩ ∧ InRange ⟨tsMax, 19845, false⟩ ∧
+    SignOk ⟨tsMax, 19845, false⟩ := by decide
+example : format (.custom Extracted.dateFmtIso8601) ⟨-62167219201, 19845, false⟩ =
+    .ok [48, 48, 48, 48, 45, 48, 49, 45, 48, 49, 32, 48, 53, 58, 51, 48, 58, 52, 52, 32, 43, 48, 53, 51, 48, 52, 53] := by
+  decide +kernel      -- "0000-01-01 05:30:44 +053045"
+
+/-- `raw_roundtrip`: for ALL i64 seconds and every offset `write_to` accepts (below 100 hours) that is a
+whole number of minutes and agrees with the sign field, `parse_raw` reads `Format::Raw`'s text back
+exactly — seconds, offset and sign (so `-0000` stays `-0000`). -/
+theorem raw_roundtrip (t : Time) (hlo : i64Lo ≤ t.seconds) (hhi : t.seconds ≤ i64Hi) (hmin : t.offset % 60 = 0)
+    (hsg : (t.minus = true → t.offset ≤ 0) ∧ (t.minus = false → 0 ≤ t.offset)) (text : Bytes)
+    (hf : format .raw t = .ok text) : parseRaw text = some t := by
+  unfold format at hf
+  simp only at hf
+  cases hw : t.write with
+  | none => rw [hw] at hf; cases hf
+  | some bs =>
+    rw [hw] at hf
+    simp only [Outcome.ok.injEq] at hf
+    subst hf
+    rw [parseRaw_write t hlo hhi bs hw]
+    cases t with
+    | mk s o mi =>
+      simp only at hmin hsg ⊢
+      congr 2
+      cases mi
+      · have := hsg.2 rfl; simp only [Bool.false_eq_true, if_false]; omega
+      · have := hsg.1 rfl; simp only [if_true]; omega
+
+example : format .raw ⟨i64Lo, -35940, true⟩ = .ok [45, 57, 50, 50, 51, 51, 55, 50, 48, 51, 54, 56, 53, 52, 55, 55, 53, 56, 48, 56, 32, 45, 48, 57, 53, 57] := by
+  decide +kernel
+
+/-- `Format::Unix`: the decimal seconds, read back by the `i64::from_str` branch, for ALL i64. -/
+theorem unix_roundtrip (t : Time) (hlo : i64Lo ≤ t.seconds) (hhi : t.seconds ≤ i64Hi) :
+    ∃ text, format .unix t = .ok text ∧ parseIntIn i64Lo i64Hi text = some t.seconds :=
+  ⟨intDec t.seconds, rfl, parseIntIn_intDec _ _ _ hlo hhi⟩
+
+/-! ### the property as stated, and why it does not hold as stated -/
+
+def allFormats : List Format :=
+  [.custom Extracted.dateFmtShort, .custom Extracted.dateFmtRfc2822, .custom Extracted.dateFmtGitRfc2822,
+   .custom Extracted.dateFmtIso8601, .custom Extracted.dateFmtIso8601Strict, .custom Extracted.dateFmtGitoxide,
+   .custom Extracted.dateFmtDefault, .unix, .raw]
+
+/-- "For every supported output format and every representable time, parsing the formatted text yields
+the same instant and offset." -/
+def C52_full : Prop :=
+  ∀ f ∈ allFormats, ∀ t : Time, i64Lo ≤ t.seconds → t.seconds ≤ i64Hi → -2147483648 ≤ t.offset → t.offset ≤ 2147483647 →
+    ∃ text t', format f t = .ok text ∧ parse text = .ok t' ∧ t'.seconds = t.seconds ∧ t'.offset = t.offset
+
+/-- known finding `format-panics-outside-jiff-range`: one second past year 9999 -/
+theorem format_panics_outside_range :
+    format (.custom Extracted.dateFmtIso8601) ⟨tsMax + 1, 0, false⟩ = .panic ∧
+    format (.custom Extracted.dateFmtIso8601) ⟨0, offMax + 1, false⟩ = .panic := by
+  decide
+
+/-- known finding `format-raw-panics-offset-100h` -/
+theorem raw_panics_100h : format .raw ⟨0, 360000, false⟩ = .panic := by decide
+
+theorem C52_full_false : ¬ C52_full := by
+  intro h
+  obtain ⟨text, t', hf, _⟩ := h (.custom Extracted.dateFmtIso8601) (by decide) ⟨tsMax + 1, 0, false⟩ (by decide) (by decide)
+    (by decide) (by decide)
+  rw [format_panics_outside_range.1] at hf
+  cases hf
+
+/-- known finding `rfc2822-negative-year`: "Fri, 31 Dec -0001 23:59:59 +0000" is what RFC2822 prints for the
+second before year 0, and no branch of `parse` accepts it. -/
+theorem rfc2822_negative_year_not_parsed :
+    format (.custom Extracted.dateFmtRfc2822) ⟨-62167219201, 0, false⟩ =
+      .ok [70, 114, 105, 44, 32, 51, 49, 32, 68, 101, 99, 32, 45, 48, 48, 48, 49, 32, 50, 51, 58, 53, 57, 58, 53, 57, 32, 43, 48, 48, 48, 48] ∧
+    parse [70, 114, 105, 44, 32, 51, 49, 32, 68, 101, 99, 32, 45, 48, 48, 48, 49, 32, 50, 51, 58, 53, 57, 58, 53, 57, 32, 43, 48, 48, 48, 48] = .err := by
+  decide +kernel
+
+/-- known finding `short-date-outside-timestamp-range`: 9999-12-31 (and SHORT by design keeps the day only:
+the text of 1970-01-01T23:59:59+00:00 reads back as midnight) -/
+theorem short_edge_days_not_parsed :
+    format (.custom Extracted.dateFmtShort) ⟨tsMax, 7200, false⟩ = .ok [57, 57, 57, 57, 45, 49, 50, 45, 51, 49] ∧
+    parse [57, 57, 57, 57, 45, 49, 50, 45, 51, 49] = .err ∧
+    format (.custom Extracted.dateFmtShort) ⟨86399, 0, false⟩ = .ok [49, 57, 55, 48, 45, 48, 49, 45, 48, 49] ∧
+    parse [49, 57, 55, 48, 45, 48, 49, 45, 48, 49] = .ok ⟨0, 0, false⟩ := by
+  decide +kernel
+
+-- the cascade picks the branch of each format (samples; the cascade as a whole is checked on the real code)
+example : parse [50, 48, 50, 50, 45, 48, 56, 45, 49, 55, 32, 50, 50, 58, 48, 52, 58, 53, 56, 32, 43, 48, 50, 48, 48] =
+    .ok ⟨1660766698, 7200, false⟩ := by decide +kernel          -- "2022-08-17 22:04:58 +0200"
+example : parse [84, 104, 117, 44, 32, 49, 56, 32, 65, 117, 103, 32, 50, 48, 50, 50, 32, 49, 50, 58, 52, 53, 58, 48, 54, 32, 43, 48, 56, 48, 48] =
+    .ok ⟨1660797906, 28800, false⟩ := by decide +kernel         -- "Thu, 18 Aug 2022 12:45:06 +0800"
+
 end GixModel.Props.C52
